@@ -157,6 +157,15 @@ CURATED = [
     ("docstring", '"""doc"""\nx = 1\n'),
     ("walrus-in-while-test", "it = iter([1, 2, 0, 3])\nwhile (x := next(it)):\n    print(x)\n"),
     ("walrus-in-for-iter", "for x in (y := [1, 2]):\n    print(x, y)\n"),
+    ("while-then-own-import-itertools", "n = 2\nwhile n:\n    n -= 1\nimport itertools\nprint(next(itertools.count(5)))\n"),
+    ("own-import-importlib-then-import", "import importlib\nimport math\nprint(importlib.import_module('math') is math)\n"),
+    ("nested-destructuring-sibling", "(a, b), c = (1, 2), 3\nh, (lo, *mid, hi), t = 0, [1, 2, 3, 4], 5\nprint(a, b, c, h, lo, mid, hi, t)\n"),
+    ("nested-comprehension-shadow", "def f():\n    x = 'outer'\n    def g():\n        return x\n    return [[x for _ in [0]] for x in ['in']], g()\nprint(f())\n"),
+    ("swap-closure", "def f():\n    lo, hi = 1, 2\n    def g():\n        return lo, hi\n    lo, hi = hi, lo\n    return g()\nprint(f())\n"),
+    ("swap-class-body", "class A:\n    a, b = 1, 2\n    a, b = b, a\nprint(A.a, A.b)\n"),
+    ("self-observing-tuple-assign", "total = 5\ndef report():\n    return total\ntotal, last = 0, report()\nprint(total, last)\n"),
+    ("lambda-default-same-name", "class A:\n    k = 3\n    f = lambda self, k=k: k\ndef o():\n    x = 1\n    def c():\n        return x\n    return (lambda x=x: x)(), c()\nprint(A().f(), o())\n"),
+    ("loop-else-return-then-more", "def f(v):\n    for i in [1]:\n        pass\n    else:\n        if v:\n            return 'early'\n        print('after')\n    return 'late'\nprint(f(1), f(0))\n"),
     ("decorated-class-2", "def d(n):\n    def w(c):\n        c.n = n\n        return c\n    return w\n@d(1)\n@d(2)\nclass A: pass\nprint(A.n)\n"),
     ("import-dotted", "import os.path\nprint(os.path.sep)\n"),
     ("for-assign-target", "for i in range(3):\n    i = i + 1\n    print(i)\n"),
